@@ -28,8 +28,13 @@ import hashlib, os, re, sys
 MAXCP = 0x10FFFF
 NAMES = ["INTEGER", "DECIMAL", "DOUBLE", "BOOLEAN", "PN_LOCAL"]
 COQNAME = {"INTEGER": "integer_re", "DECIMAL": "decimal_re", "DOUBLE": "double_re",
-           "BOOLEAN": "boolean_re", "PN_LOCAL": "pn_local_re"}
+           "BOOLEAN": "boolean_re", "PN_LOCAL": "pn_local_re", "PN_PREFIX": "pn_prefix_re"}
 SRC_FILE = "turtle/src/serializer/_pretty.rs"
+# regular expressions of OTHER source files that decide what the pretty-printer is given: PN_PREFIX of
+# api/src/prefix/_regex.rs (behind is_valid_prefix / Prefix::new: the prefixes of a checked prefix map).
+# They are emitted AFTER the five of _pretty.rs (so the names of the classes of those do not move).
+EXTRA = [("PN_PREFIX", "api/src/prefix/_regex.rs")]
+ALL_NAMES = NAMES + [n for n, _f in EXTRA]
 
 
 def _chars(s):
@@ -444,6 +449,8 @@ def extract_sources(repo_root):
     for name in NAMES:
         # the pattern handed to Regex::new, whatever way the source spells it (raw string, named constants, concat!/format!)
         out[name] = consts.regex_source(name)
+    for name, rel in EXTRA:
+        out[name] = rustconst.Consts(os.path.join(repo_root, rel)).regex_source(name)
     # how the writer uses them (checked so that a change of wiring is noticed)
     flat = re.sub(r"\s+", " ", text)
     wiring = [
@@ -541,18 +548,18 @@ def translate(repo_root):
     table = atom_table()
     em = Emitter()
     asts = {}
-    for name in NAMES:
+    for name in ALL_NAMES:
         try:
             asts[name] = parse_regex(srcs[name])
         except RegexSyntax as e:
             raise RegexSyntax("%s: %s" % (name, e))
-    bodies = [(COQNAME[n], em.conc(asts[n]), em.abst(asts[n])) for n in NAMES]
+    bodies = [(COQNAME[n], em.conc(asts[n]), em.abst(asts[n])) for n in ALL_NAMES]
     cls_defs, abs_defs = [], []
     for k, rs in enumerate(em.order):
         ids = atoms_of_class(list(rs), table)      # raises on misalignment
         cls_defs.append("Definition k%d : cclass := %s.  (* %s *)" % (k, coq_ranges(rs), fmt_ranges(rs)))
         abs_defs.append("Definition a%d : rex N := %s." % (k, sum_of_atoms(ids)))
-    sha = hashlib.sha256(("\0".join(srcs[n] for n in NAMES)).encode("utf8")).hexdigest()
+    sha = hashlib.sha256(("\0".join(srcs[n] for n in ALL_NAMES)).encode("utf8")).hexdigest()
     atomdoc = "\n".join("   %2d %-10s %s" % (aid, nm, "(everything else)" if rs is None else fmt_ranges(norm_ranges(rs)))
                         for aid, nm, _rep, rs in ATOMS)
     types = TYPES % dict(atomdoc=atomdoc, natoms=len(ATOMS),
@@ -567,7 +574,7 @@ def translate(repo_root):
     for coqname, _, abst in bodies:
         body += "Definition %s_atoms : rex N :=\n  %s.\n" % (coqname, abst)
     # (the header names the file relative to the repository root, so that the output only depends on the sources)
-    head = "(* GENERATED by lib/regex_turtle2coq.py from %s -- do not edit.\n   sha256 of the five regex sources: %s *)\n" % (SRC_FILE, sha)
+    head = "(* GENERATED by lib/regex_turtle2coq.py from %s -- do not edit.\n   (and %s)\n   sha256 of the regex sources: %s *)\n" % (SRC_FILE, ", ".join("%s from %s" % e for e in EXTRA), sha)
     text = head + PRELUDE + types + body
     info = {"turtle_regex_source_sha256": sha[:16], "turtle_regex_classes": len(em.order), "turtle_regex_atoms": len(ATOMS),
             "RegexTurtle.v.sha256": hashlib.sha256(text.encode()).hexdigest()[:16]}
@@ -654,7 +661,7 @@ def ka_extra(root, tier, seed, summaries):
     for fname, line, s, word in found:
         p = fname if os.path.isabs(fname) else os.path.join(root, "coq", fname.lstrip("./"))
         lemma = _lemma_at(p, line)
-        accepted = [n for n in NAMES if n in asts and py_match(asts[n], s)]
+        accepted = [n for n in ALL_NAMES if n in asts and py_match(asts[n], s)]
         what = ("a regular expression of turtle/src/serializer/_pretty.rs leaves the Turtle grammar (lemma %s): the string %r is "
                 "accepted by %s but is not in the corresponding production / is in two numeric productions "
                 "(distinguishing word of the decision procedure: %s)"
